@@ -38,10 +38,12 @@ theorem skel_OAuthProxy_OAuthCallback_ok : skel_OAuthProxy_OAuthCallback = ([
   "if err != nil",
   "p.ErrorPage",
   "return",
+  "req.Form.Get",
   "if errorString != \"\"",
   "p.ErrorPage",
   "return",
   "decodeState",
+  "req.Form.Get",
   "if err != nil",
   "p.ErrorPage",
   "return",
